@@ -127,6 +127,31 @@ fn check_case(run: &Run, c: &Case, target_names: &[&str], opt_variants: &[usize]
     }
 }
 
+/// Same relation through the streaming-reader entry point (replay over the
+/// `BufferedInput` parser), untyped target only.
+fn check_case_reader(run: &Run, c: &Case, ov: usize) {
+    let Some(exp) = &c.expanded else { return };
+    let t = targets::by_name("Val").unwrap();
+    run.eval();
+    let ra = vcore::obs::catch(|| (t.from_reader)(&mut std::io::Cursor::new(c.doc.as_bytes()), opts(ov)));
+    let rb = vcore::obs::catch(|| (t.from_reader)(&mut std::io::Cursor::new(exp.as_bytes()), opts(ov)));
+    let case_json = || json!({"doc": c.doc, "expanded": c.expanded, "target": "Val", "opts": ov, "entry": "reader"});
+    match (ra, rb) {
+        (Err(p), _) | (_, Err(p)) => run.violation(&format!("C02:panic:{}", vcore::obs::panic_site(&p)), case_json(), p),
+        (Ok(a), Ok(b)) => {
+            if !same_value_or_both_err(&a, &b) {
+                run.violation(
+                    &format!("C02:reader:{}", classify(&c.doc, exp, "Val", &a, &b)),
+                    case_json(),
+                    format!("aliased: {} | expanded: {}", show(&a), show(&b)),
+                );
+            } else {
+                run.count("reader_cases", 1);
+            }
+        }
+    }
+}
+
 /// Build the case for a decorated tree in one layout; None = generator-invalid.
 fn build_case(run: &Run, tree: &Node, flow: bool, ro: &RenderOpts) -> Option<Case> {
     let mut t = tree.clone();
@@ -134,6 +159,10 @@ fn build_case(run: &Run, tree: &Node, flow: bool, ro: &RenderOpts) -> Option<Cas
     match ydoc::expand(&t) {
         Some(e) => {
             let Some((doc, rdoc)) = render_checked(&t, ro) else {
+                if std::env::var_os("VERIF_DEBUG").is_some() {
+                    let txt = ydoc::render(&t, ro).text;
+                    eprintln!("GENERATOR-INVALID:\n{txt}--- intended {}\n--- parsed   {:?}", reftree::node_shape(&t), reftree::parse_one(&txt).map(|r| reftree::rnode_shape_anon(&r)));
+                }
                 run.inconclusive("generator-invalid: aliased document not parsed as intended");
                 return None;
             };
@@ -272,6 +301,19 @@ fn random_decorated(rng: &mut Rng) -> Node {
             *n = n.clone().with_anchor(name);
         }
     }
+    // tags on some nodes (an alias must carry the tag of its anchor)
+    let n_tags = rng.below(3);
+    for _ in 0..n_tags {
+        let p = rng.pick(&paths).clone();
+        let n = treegen::node_at_mut(&mut t, &p);
+        let tag = match n {
+            Node::Scalar { .. } => *rng.pick(&["!!str", "!!int", "!custom", "!", "!!null", "!!binary"]),
+            Node::Seq { .. } => *rng.pick(&["!!seq", "!custom"]),
+            Node::Map { .. } => *rng.pick(&["!!map", "!custom"]),
+            Node::Alias(_) => continue,
+        };
+        *n = n.clone().with_tag(tag);
+    }
     let n_alias = rng.range(1, 6);
     for _ in 0..n_alias {
         let paths = treegen::node_paths(&t);
@@ -306,7 +348,11 @@ fn main() {
         let tn = case["target"].as_str().unwrap_or("Val").to_string();
         let ov = case["opts"].as_u64().unwrap_or(0) as usize;
         let tn_static: &'static str = targets::by_name(&tn).map(|t| t.name).unwrap_or("Val");
-        check_case(&run, &c, &[tn_static], &[ov], true);
+        if case["entry"].as_str() == Some("reader") {
+            check_case_reader(&run, &c, ov);
+        } else {
+            check_case(&run, &c, &[tn_static], &[ov], true);
+        }
         run.finish(Finish::new("replay"));
     }
 
@@ -384,7 +430,7 @@ fn main() {
     }
 
     // ---- random larger documents
-    let n_random = tier.pick(20_000, 400_000);
+    let n_random = tier.pick(300_000, 3_000_000);
     par_range(n_random, |i| {
         let mut rng = Rng::stream(run.seed, i as u64);
         let t = random_decorated(&mut rng);
@@ -393,6 +439,9 @@ fn main() {
         if let Some(c) = build_case(&run, &t, flow, &ro) {
             run.count("random_cases", 1);
             check_case(&run, &c, target_names, &[rng.below(3)], true);
+            if i % 4 == 0 {
+                check_case_reader(&run, &c, rng.below(3));
+            }
             if i % 4999 == 0 {
                 run.sample(|| json!({"doc": c.doc, "expanded": c.expanded}));
             }
